@@ -33,6 +33,9 @@ def run(tier, seed):
     mcs = [ce.mc_model(rd, "MCWriteBehind", "MCWriteBehind_quick.cfg" if tier == "quick" else "MCWriteBehind_full.cfg",
                        ["CrashSafe"])]
     ce.mc_model(rd, "MCWriteBehind", "MCWriteBehind_mut_JournalAll.cfg", expect_violation=True, timeout=300)
+    if tier != "quick":
+        # slot alternation is what makes torn journal writes harmless (sanity: the variant must fail)
+        ce.mc_model(rd, "MCWriteBehind", "MCWriteBehind_mut_ClearSlot.cfg", expect_violation=True, timeout=900)
     mc_states = sum(r.distinct for r in mcs)
     mc_trans = sum(r.generated for r in mcs)
     for r in mcs:
